@@ -216,6 +216,9 @@ func (column *ColumnData) SetDataLength(length uint32) {
 
 // parseColumns split whole data row packet into separate columns data
 func (packet *PacketHandler) parseColumns(columnFormats []uint16) error {
+	if packet.descriptionBuf.Len() < 2 {
+		return ErrPacketTruncated
+	}
 	packet.columnCount = int(binary.BigEndian.Uint16(packet.descriptionBuf.Bytes()[:2]))
 
 	if packet.columnCount == 0 {
@@ -227,6 +230,10 @@ func (packet *PacketHandler) parseColumns(columnFormats []uint16) error {
 		column := &ColumnData{}
 		if err := column.ReadLength(columnReader); err != nil {
 			return err
+		}
+		// column's data should fit into the rest of packet, don't allocate memory according to incorrect length
+		if length := column.Length(); int32(length) != NullColumnValue && length > columnReader.Len() {
+			return ErrPacketTruncated
 		}
 		format, err := GetParameterFormatByIndex(i, columnFormats)
 		if err != nil {
